@@ -70,9 +70,24 @@ def main(tier):
     run.rule = "obligation = one structural fact about the generator (interpolation site, construction site, emitted identifier); non-trivial = distinct facts"
     prog = facts.load("dev", None, crate="indextree_macros")
     f = prog.fns.get("crate::tree")
-    g = prog.fns.get("crate::Action::to_stream")
-    if not run.ob("setup", "indextree_macros::tree and Action::to_stream exist", f is not None and g is not None, key="setup|generator functions missing"):
+    # the function holding the per-action templates: it dispatches on the Action kind and emits tokens (Action::to_stream today; found by what it does, not by name)
+    gs = []
+    for k, fn_ in prog.fns.items():
+        if "mir" not in fn_ or fn_.get("impl_derived"):
+            continue
+        disc = any(st_["k"] == "assign" and st_["rv"]["k"] == "discr" and prog.ty(st_["rv"]["ty"]).get("path") == "crate::Action" for _, _, st_ in prog.stmts(fn_))
+        emits = any(rules.callee_name(t["callee"]).startswith("quote::__private::push_") for _, t in prog.calls(fn_))
+        if disc and emits:
+            gs.append(fn_)
+    g = gs[0] if len(gs) == 1 else prog.fns.get("crate::Action::to_stream")
+    # the function holding the flattening loop: the one that builds the Action values (tree itself today)
+    hk = sorted({a["fn"] for a in rules.aggregates(prog, "crate::Action") if not prog.fns[a["fn"]].get("impl_derived")})
+    h = prog.fns.get(hk[0]) if len(hk) == 1 else None
+    if not run.ob("setup", "the macro entry point, the per-action template function and the flattening function are identifiable", f is not None and g is not None and h is not None,
+                  key="setup|generator functions missing", detail={"templates": [x["key"] for x in gs], "action builders": hk}):
         return run.finish()
+    HK = h["key"]
+    run.extra["functions"] = {"entry": f["key"], "action templates": g["key"], "flattening loop": HK}
     # (1) interpolations in the final template
     inter = []
     for bi, t in prog.calls(f):
@@ -105,19 +120,19 @@ def main(tier):
     # (3) construction sites
     for variant in ("Append", "Parent", "Nest"):
         sites = [a for a in rules.aggregates(prog, "crate::Action") if a["variant"] == variant and not prog.fns[a["fn"]].get("impl_derived")]
-        run.ob("actions", "Action::%s constructed at exactly one site (in tree)" % variant, len(sites) == 1 and sites[0]["fn"] == "crate::tree",
+        run.ob("actions", "Action::%s constructed at exactly one site (in the flattening function)" % variant, len(sites) == 1 and sites[0]["fn"] == HK,
                key="actions|Action::%s constructed at %d site(s)" % (variant, len(sites)), detail=[(s["fn"], prog.loc(s["span"])) for s in sites], nontrivial=("site", variant))
     # Append is pushed inside the flattening loop, once per popped node: its block is in the loop body and is not itself inside an inner loop
-    cfg = CFG(f["mir"])
-    app = [a for a in rules.aggregates(prog, "crate::Action") if a["variant"] == "Append" and a["fn"] == "crate::tree"]
+    cfg = CFG(h["mir"])
+    app = [a for a in rules.aggregates(prog, "crate::Action") if a["variant"] == "Append" and a["fn"] == HK]
     if app:
         heads = {b for (_, b) in cfg.back_edges()}
         inloops = [h for h in heads if cfg.dominates(h, app[0]["bb"])]
         run.ob("actions", "the Append push is inside exactly one loop (the flattening loop)", len(inloops) == 1, key="actions|Append push is inside %d loops" % len(inloops), detail=sorted(heads), nontrivial="apploop")
     # (5) pairing of nesting actions: every Nest is pushed together with exactly one nesting marker, and a popped marker yields exactly one Parent
-    nest = [a for a in rules.aggregates(prog, "crate::Action") if a["variant"] == "Nest" and a["fn"] == "crate::tree"]
-    parent = [a for a in rules.aggregates(prog, "crate::Action") if a["variant"] == "Parent" and a["fn"] == "crate::tree"]
-    markers = [a for a in rules.aggregates(prog, "either::Either") if a["variant"] == "Right" and a["fn"] == "crate::tree"]
+    nest = [a for a in rules.aggregates(prog, "crate::Action") if a["variant"] == "Nest" and a["fn"] == HK]
+    parent = [a for a in rules.aggregates(prog, "crate::Action") if a["variant"] == "Parent" and a["fn"] == HK]
+    markers = [a for a in rules.aggregates(prog, "either::Either") if a["variant"] == "Right" and a["fn"] == HK]
     run.ob("pairing", "exactly one site builds the nesting marker Either::Right(..)", len(markers) == 1, key="pairing|nesting marker built at %d sites" % len(markers), nontrivial="marker")
     if len(nest) == 1 and len(markers) == 1:
         run.ob("pairing", "the marker push and the Nest action are control-equivalent (one marker per Nest, unconditionally)", cfg.control_equivalent(nest[0]["bb"], markers[0]["bb"]),
@@ -129,10 +144,10 @@ def main(tier):
         run.ob("pairing", "the Parent action is on the marker arm, not on the node arm", not cfg.dominates(app[0]["bb"], parent[0]["bb"]) and not cfg.dominates(parent[0]["bb"], app[0]["bb"]),
                key="pairing|Parent is emitted on the node arm", nontrivial="parent-arm")
     # (6) stack discipline of the flattening loop (each breach changes nesting or sibling order for some literal)
-    calls = [(bi, t, rules.callee_name(t["callee"])) for bi, t in prog.calls(f)]
+    calls = [(bi, t, rules.callee_name(t["callee"])) for bi, t in prog.calls(h)]
 
     def org(t, i):
-        return rules.origin(prog, f, t["args"][i])
+        return rules.origin(prog, h, t["args"][i])
 
     def has_call(o, suffix):
         return any(x[0] == "call" and x[1].endswith(suffix) for x in o)
@@ -150,13 +165,13 @@ def main(tier):
                key="stack|marker/children are not pushed onto the work stack", nontrivial="same-stack")
         run.ob("stack", "children are pushed in reverse textual order", has_call(org(e[1], 1), "Iterator::rev"), key="stack|children are not pushed reversed (sibling order would flip)",
                detail=sorted(map(str, org(e[1], 1))), nontrivial="child-rev", sample=True)
-        run.ob("stack", "children come from the popped node", any("children" in str(x) for x in rules.origin(prog, f, [c for c in calls if c[0] < e[0] and c[2].endswith("IntoIterator>::into_iter")][-1][1]["args"][0])),
+        run.ob("stack", "children come from the popped node", any("children" in str(x) for x in rules.origin(prog, h, [c for c in calls if c[0] < e[0] and c[2].endswith("IntoIterator>::into_iter")][-1][1]["args"][0])),
                key="stack|the pushed children are not the popped node's children", nontrivial="child-src")
         run.ob("stack", "the marker is pushed before (below) the children", cfg.dominates(m[0], e[0]) and m[0] != e[0], key="stack|nesting marker is not pushed below the children", nontrivial="marker-below")
     apush = [c for c in calls if c[2] == "alloc::vec::Vec::<T, A>::push" and any(x[0] == "agg" and x[1] == "crate::Action" and x[2] == "Append" for x in org(c[1], 1))]
     if apush:
-        agg = [a for a in rules.aggregates(prog, "crate::Action") if a["variant"] == "Append" and a["fn"] == "crate::tree"][0]
-        o = rules.origin(prog, f, agg["stmt"]["rv"]["ops"][0])
+        agg = [a for a in rules.aggregates(prog, "crate::Action") if a["variant"] == "Append" and a["fn"] == HK][0]
+        o = rules.origin(prog, h, agg["stmt"]["rv"]["ops"][0])
         run.ob("stack", "Append carries the popped node's own expression", any(x[0] == "call" and x[1] == "alloc::vec::Vec::<T, A>::pop" and ".node" in x[3] for x in o),
                key="stack|Append does not carry the popped node's expression", detail=sorted(map(str, o)), nontrivial="append-src")
     # (7) the generated cursor machine: which variable each template assigns (variable names are read from the declarations, so a consistent rename is fine)
